@@ -87,13 +87,15 @@ type EndCfg struct {
 	HsTimeoutMs int64  `json:"hs_timeout_ms,omitempty"`
 	Handlers    string `json:"handlers,omitempty"` // default | record | error
 	HandlerErrAt int   `json:"handler_err_at,omitempty"`
+	HandlerErrKind string `json:"handler_err_kind,omitempty"` // error mode: "" a private error value | eof io.EOF | ueof io.ErrUnexpectedEOF (any error value is the handler's right)
+	ResetHandlers bool `json:"reset_handlers,omitempty"` // custom handlers are installed and then reset with nil before anything else: the defaults must be back
 	Subprotocols []string `json:"subprotocols,omitempty"`
 	ReqHeader   map[string][]string `json:"req_header,omitempty"` // client: application-supplied request headers
 }
 
 // Chunk is one write call on an open message writer.
 type Chunk struct {
-	How string `json:"how"` // w Write | s io.WriteString | rf ReadFrom (io.Copy) | z zero-length Write | e+ e- EnableWriteCompression while the message is open | l SetCompressionLevel(N) while the message is open
+	How string `json:"how"` // w Write | s io.WriteString | rf ReadFrom (io.Copy) | z zero-length Write | e+ e- EnableWriteCompression while the message is open | l SetCompressionLevel(N) while the message is open | cc Conn.Close() while the message is open
 	N   int    `json:"n"`
 	RfChunk int `json:"rf_chunk,omitempty"` // reader chunk size for ReadFrom
 	RfEOF   bool `json:"rf_eof,omitempty"`  // the source returns its last bytes together with io.EOF
